@@ -168,6 +168,10 @@ pub struct Run {
     pub assumptions: Vec<String>,
     pub exhaustive_parts: Vec<String>,
     pub extra: BTreeMap<String, Value>,
+    /// number of parallel shards for the next parts (process creation does not scale on this box:
+    /// subprocess-heavy parts use few shards)
+    pub shards: usize,
+    pub shrink_iters: u32,
     start: Instant,
 }
 
@@ -193,6 +197,8 @@ impl Run {
             assumptions: vec![],
             exhaustive_parts: vec![],
             extra: BTreeMap::new(),
+            shards: nshards(),
+            shrink_iters: 4000,
             start: Instant::now(),
         }
     }
@@ -207,7 +213,8 @@ impl Run {
         F: Fn(&[u8]) -> Outcome + Sync,
     {
         let t0 = Instant::now();
-        let shards = nshards().min(cases.max(1) as usize).max(1);
+        let shards = self.shards.min(cases.max(1) as usize).max(1);
+        let shrink_iters = self.shrink_iters;
         let per = (cases as usize + shards - 1) / shards;
         let part_seed = mix64(self.seed ^ hash_str(&format!("{}/{}", self.prop, part)));
         let results: Vec<(Stats, Option<(Vec<u8>, String)>, Vec<String>)> = {
@@ -224,7 +231,7 @@ impl Run {
                     let cfg = Config {
                         cases: per as u32,
                         failure_persistence: None,
-                        max_shrink_iters: 4000,
+                        max_shrink_iters: shrink_iters,
                         max_shrink_time: 0,
                         verbose: 0,
                         ..Config::default()
@@ -313,7 +320,7 @@ impl Run {
     {
         use rayon::prelude::*;
         let t0 = Instant::now();
-        let chunk = (items.len() / (nshards() * 8)).max(1);
+        let chunk = (items.len() / (self.shards * 8)).max(1);
         let results: Vec<(Stats, Option<(usize, Failure)>, Vec<String>)> = items
             .par_chunks(chunk)
             .enumerate()
